@@ -125,10 +125,66 @@ def f_frag( ctx ):
         g = src.parent.get( a )
         return ( isinstance( g, ast.If ) and a in g.body and { 'WR_TAG_RPY', 'WR_FRG_RPY' } <= attrs_in( g.test ) and not { 'RD_TAG_RPY', 'RD_FRG_RPY' } & attrs_in( g.test )
                  and pmatch( a.value, 'typed_data.datasize( data[context].type )' ) is not None and a.lineno > own[0].lineno and a.lineno < q.lineno )
+    # ... for EVERY fixed-size type the type table admits ( BOOL .. LREAL ), and for no other: the part of the guard that speaks about the
+    # transmitted type is evaluated for each type code
+    from .grammar import grammar_of as _gof
+    g_ = _gof( ctx )
+    FIXED = ( 'BOOL', 'SINT', 'USINT', 'INT', 'UINT', 'DINT', 'UDINT', 'LINT', 'ULINT', 'REAL', 'LREAL' )
+    OTHER = ( 'STRING', 'SSTRING', 'STRUCT' )
+    def type_guard_value( test, code ):
+        class Sub( ast.NodeTransformer ):
+            def visit_Attribute( self, n ):
+                if n.attr == 'tag_type' and isinstance( n.value, ast.Name ) and n.value.id in g_.classes:
+                    v = g_.class_const( n.value.id, 'tag_type' )
+                    return ast.Constant( value=v ) if isinstance( v, int ) else n
+                if n.attr == 'type' and 'context' in txt( n.value ):
+                    return ast.Constant( value=code )
+                self.generic_visit( n ); return n
+            def visit_Call( self, n ):
+                if isinstance( n.func, ast.Attribute ) and n.func.attr == 'get' and n.args and try_fold( n.args[0] ) == 'type':
+                    return ast.Constant( value=code )
+                self.generic_visit( n ); return n
+        conj = test.values if isinstance( test, ast.BoolOp ) and isinstance( test.op, ast.And ) else [ test ]
+        about = [ c_ for c_ in conj if 'type' in txt( c_ ) and 'WR_' not in txt( c_ ) ]
+        if not about:
+            return True
+        vals = [ try_fold( Sub().visit( ast.parse( ast.unparse( c_ ), mode='eval' ).body ), default=None ) for c_ in about ]
+        return None if any( v_ is None for v_ in vals ) else all( vals )
+    for a in wr:
+        gd = src.parent.get( a )
+        if not isinstance( gd, ast.If ):
+            continue
+        wrong_ = []
+        for nm in FIXED + OTHER:
+            code = g_.class_const( nm, 'tag_type' )
+            v_ = type_guard_value( gd.test, code )
+            if v_ is None:
+                raise AnalysisError( 'reply_elements: the type guard of the write element size cannot be evaluated: %s' % norm_text( gd.test ))
+            if bool( v_ ) != ( nm in FIXED ):
+                wrong_.append( nm )
+        if wrong_:
+            res.bad( src, gd, 'the write element size is that of the transmitted type for %s' % ( 'all but ' + ', '.join( w for w in wrong_ if w in FIXED ) if any( w in FIXED for w in wrong_ ) else 'also ' + ', '.join( wrong_ )),
+                     'the type table admits BOOL .. LREAL data into wider tags; for a type left out of the guard the byte offset of a tile is converted with the TAG\'s element size again: tiles from the second on land on the wrong elements ( acknowledged 0x00 ) or are refused' )
+        else:
+            res.ok( src, gd, 'the transmitted type\'s size is used for every fixed-size type ( %d type codes evaluated ), the tag\'s for text / UDT types' % len( FIXED + OTHER ))
     if len( own ) == 1 and own[0].lineno < q.lineno and all( write_sized( a ) for a in wr ):
         res.ok( src, own[0], 'element size = attribute.parser.struct_calcsize' + ( '; for the write services: the size of the type transmitted' if wr else '' ))
     else:
         res.bad( src, fn, 'element size %s' % [ norm_text( a.value ) for a in szs ], 'byte offsets of reads must be converted with the element size of the tag\'s own type ( of writes: with the tag\'s or the transmitted type\'s )' )
+    # the size the write offsets are converted with is the size the elements occupy on the wire: typed_data.datasize( type, n ) is exactly
+    # n times the struct size of the type ( no rounding up to words: one-octet types would report 2 octets per element - fragments land at
+    # half the addressed index, and one starting beyond the end of the tag passes every bounds assertion )
+    psrc = ctx.src( 'server/enip/parser.py' )
+    ds = psrc.get( 'typed_data.datasize' )
+    rets = [ r_ for r_ in ast.walk( ds ) if isinstance( r_, ast.Return ) ]
+    SZ = ds.args.args[2].arg if len( ds.args.args ) > 2 else None
+    def exact_( e ):
+        return SZ is not None and isinstance( e, ast.BinOp ) and isinstance( e.op, ast.Mult ) and (
+            ( txt( e.left ).endswith( '.struct_calcsize' ) and dotted( e.right ) == SZ ) or ( txt( e.right ).endswith( '.struct_calcsize' ) and dotted( e.left ) == SZ ))
+    if len( rets ) == 1 and exact_( rets[0].value ):
+        res.ok( psrc, rets[0], 'typed_data.datasize( type, n ) = n * struct size of the type, exactly' )
+    else:
+        res.bad( psrc, rets[0] if rets else ds, 'typed_data.datasize does not return exactly <type>.struct_calcsize * size', 'Logix.reply_elements converts the byte offset of a Write Tag Fragmented with this size: rounded or padded, tiles of one-octet types land on the wrong elements and a tile beyond the end of the tag is acknowledged' )
     # a write does not begin inside an element: its remainder is asserted 0 on the write branch ( it is silently dropped otherwise: the data
     # lands on the element the offset rounds down to and the request is acknowledged )
     wbr = [ i for i in walk_no_nested( fn ) if isinstance( i, ast.If ) and { 'RD_TAG_RPY', 'RD_FRG_RPY' } <= attrs_in( i.test ) and i.orelse and src.parent.get( i ) is fn ]
